@@ -119,6 +119,12 @@ def _note_cases():
         yield {"space": "note", "iv": [n, q]}
 
 
+def _reuse_cases():
+    for n, q, _ in M.interval_classes():
+        for direction in ("up", "down"):
+            yield {"space": "reuse", "iv": [n, q, direction]}
+
+
 def _localkey_cases():
     for name, step, alter, minor in M.key_names():
         for deg in LK_DEGREES:
@@ -140,6 +146,9 @@ def spaces(tier, seed):
         Space("note", _note_cases, True, "transpose_note: 7 steps x alter -2..2 x 39 interval classes (results with |alter|<=2); "
               "step2pc: 7 steps x alter -2..2"),
         Space("interval", [{"space": "interval"}], True, "Interval(number, quality, direction).semitones: 39 classes x 2 directions"),
+        Space("interval-reuse", _reuse_cases, True,
+              "39 interval classes x 2 directions: an Interval object that was used, then changed in place with change_quality(+-1), "
+              "transposes like a fresh Interval of the new class"),
         Space("localkey", _localkey_cases, True,
               "process_local_key: 42 key names (7 letters x {'', '#', 'b'} x major/minor) x 14 degrees x prefixes {'', '#', 'b', '##', 'bb'}, "
               "string and (step, alter) result"),
@@ -238,7 +247,8 @@ def _check_transposition(res, kind, main_spec, other, iv, roles):
         arg_ids.update(id(tp) for tp in p._points)
         arg_ids.update(id(o) for o in F.part_objects(p))
 
-    ok, result = guarded(res, "transpose-returns", transpose, arg, S.Interval(n, q, direction))
+    iv = S.Interval(n, q, direction)
+    ok, result = guarded(res, "transpose-returns", transpose, arg, iv)
     res.transitions += 1
     if not ok:
         return "exception"
@@ -297,7 +307,14 @@ def _check_transposition(res, kind, main_spec, other, iv, roles):
     res.states += moved
 
     # up then down (down then up) restores the spelling
-    ok, back = guarded(res, "roundtrip", transpose, result, S.Interval(n, q, M.inverse(direction)))
+    # "up and then down by the same interval": the very same Interval object, with its direction reversed
+    # (alternating with a freshly built one), so that state remembered per interval object shows up too
+    if (n + len(q)) % 2:
+        iv.direction = M.inverse(direction)
+        back_iv = iv
+    else:
+        back_iv = S.Interval(n, q, M.inverse(direction))
+    ok, back = guarded(res, "roundtrip", transpose, result, back_iv)
     res.transitions += 1
     if ok and isinstance(back, want_type) and len(_parts_of(back)) == len(pspecs):
         bad = []
@@ -348,11 +365,65 @@ def eval_case(case):
         return _eval_note(case)
     if sp == "interval":
         return _eval_interval(case)
+    if sp == "reuse":
+        return _eval_reuse(case)
     if sp == "localkey":
         return _eval_localkey(case)
     if sp == "roman":
         return _eval_roman(case)
     raise ValueError(sp)
+
+
+def _eval_reuse(case):
+    """an Interval object changed in place (change_quality / direction) transposes like a freshly built
+    interval with the same number, quality and direction"""
+    import partitura.score as S
+    from partitura.utils.music import transpose
+
+    res = CaseResult(states=0, transitions=0, traces=1)
+    n, q, direction = case["iv"]
+    pitches = [p for p in M.grid_pitches([3, 4]) if M.in_range(p, n, q, direction)]
+    spec = M.grid_spec(pitches)
+    from mc import ir
+    part = ir.build_part(spec)
+    iv = S.Interval(n, q, direction)
+    ok, first = guarded(res, "transpose-returns", transpose, part, iv)
+    res.transitions += 1
+    out = []
+    for delta in (-1, 1):
+        try:
+            iv2 = S.Interval(n, q, direction)
+            iv2.change_quality(delta)
+            target = (iv2.number, iv2.quality, iv2.direction)
+        except Exception:
+            continue
+        if (target[0], target[1]) not in {(a, b) for a, b, _ in M.interval_classes()}:
+            continue
+        ps = [p for p in pitches if M.in_range(p, target[0], target[1], target[2])]
+        if not ps:
+            continue
+        sp2 = M.grid_spec(ps)
+        from mc import ir
+        p_a, p_b = ir.build_part(sp2), ir.build_part(sp2)
+        used = S.Interval(n, q, direction)
+        guarded(res, "transpose-returns", transpose, ir.build_part(sp2), used)   # the object has been used before
+        used.change_quality(delta)
+        ok1, r1 = guarded(res, "transpose-returns", transpose, p_a, used)
+        ok2, r2 = guarded(res, "transpose-returns", transpose, p_b, S.Interval(*target))
+        res.transitions += 3
+        res.states += len(ps)
+        if ok1 and ok2:
+            a = sorted((o.id, o.step, o.alter or 0, o.octave) for o in F.part_objects(r1) if isinstance(o, S.Note))
+            b = sorted((o.id, o.step, o.alter or 0, o.octave) for o in F.part_objects(r2) if isinstance(o, S.Note))
+            if a != b:
+                bad = [(x, y) for x, y in zip(a, b) if x != y][:2]
+                res.fail("note-moved", expected=[y for _, y in bad], observed=[x for x, _ in bad], where="utils/music.py:_transpose_note_inplace",
+                         detail="Interval(%d, %r, %r) after change_quality(%+d) vs a fresh Interval%r" % (n, q, direction, delta, target))
+        out.append(target[1])
+    res.nontrivial = bool(out)
+    res.states = max(res.states, 1)
+    res.outcome = "reuse %s" % ",".join(out)
+    return res
 
 
 def _eval_grid(case):
